@@ -761,6 +761,7 @@ impl Stream for WriteStream {
     }
 
     fn run(&self, line: &str) -> String {
+        if line.starts_with("write.big ") { return "oracle-only".into(); }
         let (_, a) = parse_line(line);
         let calls: Vec<String> = a.get("calls").map(|c| c.split(';').map(|s| s.to_string()).collect()).unwrap_or_default();
         if calls.is_empty() { return "bad-op".into(); }
@@ -771,12 +772,13 @@ impl Stream for WriteStream {
         s
     }
 
-    fn nontrivial(&self, _line: &str, resp: &str) -> bool {
-        resp.contains("final=") && resp.matches(" ok").count() >= 2
+    fn nontrivial(&self, line: &str, resp: &str) -> bool {
+        line.starts_with("write.big ") || resp.contains("final=") && resp.matches(" ok").count() >= 2
     }
 
     fn oracle(&self, line: &str, resp: &str) -> Vec<OracleFailure> {
         let mut f = vec![];
+        if line.starts_with("write.big ") { return oracle_append_big(line); }
         if resp.contains("panic") {
             f.push(OracleFailure { what: format!("a writer call panicked: {}", &resp[..resp.len().min(160)]) });
             return f;
@@ -1165,6 +1167,14 @@ fn oracle_append(calls: &[String], srcs: &[Vec<u8>]) -> Vec<OracleFailure> {
     let base = unhex(&calls[0][3..]).unwrap_or_default();
     let before = match catch({ let b = base.clone(); move || listing(&b) }) { Ok(Ok(l)) => l, _ => return f };
     let ro = run_calls(calls, srcs);
+    // an archive new_append REFUSES (e.g. A6: a name that decodes to more than 65535 UTF-8 bytes and could not be
+    // written back) must come out of the attempt byte for byte as it went in
+    if ro.tokens.first().map(|t| t.starts_with("err")).unwrap_or(false) {
+        if ro.fin.as_ref().map(|b| b != &base).unwrap_or(false) {
+            f.push(OracleFailure { what: format!("append: new_append refused the archive ({}) but the sink was modified", ro.tokens[0]) });
+        }
+        return f;
+    }
     if !ro.finished_ok { return f; }
     // the archive is what the first successful finish left in the sink
     let bytes = match &ro.fin { Some(b) => b.clone(), None => return f };
@@ -1180,7 +1190,10 @@ fn oracle_append(calls: &[String], srcs: &[Vec<u8>]) -> Vec<OracleFailure> {
         let line_key = calls.join(";");
         // garbage in: a base that is not a valid archive itself (a lying size, a CRC that does not match, ...)
         // hands its defects down to every appended archive; C02 speaks about what the WRITER adds to a valid base
-        let base_ok = strict_parse(&base, &StrictOpts { utf8_contract: false, allow_trailing: true, ..Default::default() }).errors.is_empty();
+        let base_rep = strict_parse(&base, &StrictOpts { utf8_contract: false, allow_trailing: true, ..Default::default() });
+        // ... a name flagged as UTF-8 that is not well-formed UTF-8 is such a defect (APPNOTE 4.4.4 bit 11 / appendix D)
+        let base_ok = base_rep.errors.is_empty()
+            && base_rep.view.as_ref().map(|v| v.entries.iter().all(|e| e.flags & 0x0800 == 0 || std::str::from_utf8(&e.name).is_ok())).unwrap_or(true);
         if base_ok { f.extend(c02_checks(&line_key, calls, srcs, &ro, live, before.0.len(), &want_comment)); }
         else { c02_count("append.base-not-strict", 1); }
     }
@@ -1228,6 +1241,32 @@ fn oracle_append(calls: &[String], srcs: &[Vec<u8>]) -> Vec<OracleFailure> {
     f
 }
 
+/// `write.big n=<entries> prefix=<bytes> rounds=<calls>|<calls>|...` (oracle-only): a foreign base with `n` empty
+/// stored entries behind a prepended stub of `prefix` bytes (ZIP64 end record + locator from 65536 entries on, offsets
+/// relative to the archive proper), then one append round per `rounds` item, each on the previous round's output,
+/// each judged by the append oracle (old entries unchanged, new ones appended, comment, strict parser on the result).
+fn oracle_append_big(line: &str) -> Vec<OracleFailure> {
+    let (_, a) = parse_line(line);
+    let n = get_u64(&a, "n").unwrap_or(0) as usize;
+    let prefix = get_u64(&a, "prefix").unwrap_or(0) as usize;
+    let rounds: Vec<String> = a.get("rounds").map(|c| c.split('|').map(|s| s.to_string()).collect()).unwrap_or_default();
+    let entries: Vec<crate::mkzip::Entry> = (0..n).map(|i| crate::mkzip::Entry::stored(format!("{:05x}", i).as_bytes(), b"")).collect();
+    let mut l = crate::mkzip::Layout::new(entries);
+    l.prefix = (0..prefix).map(|i| b"#!/bin/sh stub\n"[i % 15]).collect();
+    let mut base = crate::mkzip::build(&l).bytes;
+    let mut f = vec![];
+    for (k, round) in rounds.iter().enumerate() {
+        let mut calls = vec![format!("ap,{}", hex(&base))];
+        calls.extend(round.split(';').map(|s| s.to_string()));
+        let ro = run_calls(&calls, &[]);
+        if ro.tokens.iter().any(|t| t.contains("panic")) { f.push(OracleFailure { what: format!("append round {k} onto a base of {n} entries: a writer call panicked: {}", ro.tokens.join(" ")) }); return f; }
+        if !ro.finished_ok { f.push(OracleFailure { what: format!("append round {k} onto a base of {n} entries did not finish: {}", ro.tokens.join(" ")) }); return f; }
+        for of in oracle_append(&calls, &[]) { f.push(OracleFailure { what: format!("{} (round {k}, base of {n}+ entries behind a {prefix}-byte stub)", of.what) }); }
+        match ro.fin { Some(b) => base = b, None => return f }
+    }
+    f
+}
+
 fn foreign_base(r: &mut Rng) -> Vec<u8> {
     let (mut l, _) = super::read::rand_layout(r);
     // appendable bases: this crate's reader must open them; keep names ASCII so that re-emitted central
@@ -1237,13 +1276,63 @@ fn foreign_base(r: &mut Rng) -> Vec<u8> {
     crate::mkzip::build(&l).bytes
 }
 
+/// Foreign base whose names are NOT kept ASCII: unflagged names with bytes >= 0x80 are CP437 for this crate's reader
+/// and come back as UTF-8 in the rewritten central record (K-A2).  At least one entry has such a name.
+fn foreign_base_cp437(r: &mut Rng) -> Vec<u8> {
+    let (mut l, _) = super::read::rand_layout(r);
+    if l.entries.is_empty() { l.entries.push(crate::mkzip::Entry::stored(b"x", b"content")); }
+    for e in l.entries.iter_mut() { e.flags &= !1; e.flags &= !0x0800; if e.method == 99 { e.method = 0; } e.local_name = None; }
+    let k = r.below(l.entries.len() as u64) as usize;
+    if !l.entries[k].name.iter().any(|b| *b >= 0x80) {
+        let pool: [&[u8]; 4] = [b"Cura\x87ao.txt", b"\x81ber/\x84.dat", b"\xb0\xb1\xb2", b"na\x8bve"];
+        l.entries[k].name = pool[r.below(4) as usize].to_vec();
+    }
+    l.trailing.clear();
+    crate::mkzip::build(&l).bytes
+}
+
+/// A6: foreign bases with a name that is short enough for its 16-bit length field but DECODES (CP437 -> UTF-8,
+/// ill-formed flagged UTF-8 -> U+FFFD) to about 65535 bytes: on either side of the limit, as only / first / last entry.
+fn gen_append_long_names(g: &mut GenOut, seed: u64, tier: &str) {
+    // (byte, count, flags): 0xB0 -> 3 bytes, 0x80 -> 2 bytes, ill-formed 0xFF under the UTF-8 flag -> 3 bytes (U+FFFD)
+    let variants: [(u8, usize, u16); 6] = [(0xb0, 21845, 0), (0xb0, 21846, 0), (0x80, 32767, 0), (0x80, 32768, 0), (0xff, 21845, 0x0800), (0xff, 21846, 0x0800)];
+    let n = if tier == "thorough" { 60 } else { 8 };
+    for i in 0..n {
+        let mut r = super::rng_for(seed, "append.long-name", i);
+        let (b, cnt, flags) = if i < 6 { variants[i as usize] } else {
+            let (b, per) = *r.pick(&[(0xb0u8, 3usize), (0x80, 2), (0x9b, 2), (0xfe, 3)]);
+            (b, (65535 / per) - 2 + r.below(5) as usize, 0) };
+        let mut long = crate::mkzip::Entry::stored(&vec![b; cnt], b"payload of the long-named entry");
+        long.flags = flags;
+        let mut entries = vec![];
+        let pos = if i < 6 { i % 3 } else { r.below(3) };
+        if pos == 2 { entries.push(crate::mkzip::Entry::stored(b"first.txt", b"one")); entries.push(crate::mkzip::Entry::stored(b"dir/second", b"two")); }
+        entries.push(long);
+        if pos == 1 { entries.push(crate::mkzip::Entry::stored(b"after.txt", b"three")); entries.push(crate::mkzip::Entry::stored(b"dir/last", b"four")); }
+        let mut l = crate::mkzip::Layout::new(entries);
+        if r.chance(1, 3) { l.comment = b"old comment".to_vec(); }
+        let base = crate::mkzip::build(&l).bytes;
+        let mut calls = vec![format!("ap,{}", hex(&base))];
+        match i % 3 {
+            0 => {}
+            1 => { calls.push(format!("sf,{},{}", hex(b"x"), rand_opts(&mut r, false).tok())); calls.push(format!("w,{}", hex(b"appended"))); }
+            _ => { calls.push(format!("c,{}", hex(b"new comment"))); calls.push(format!("dir,{},{}", hex(b"d"), rand_opts(&mut r, false).tok())); }
+        }
+        calls.push("fin".into());
+        g.push("foreign-long-name", make_line(&calls, &[]));
+    }
+}
+
 fn gen_append(seed: u64, tier: &str) -> GenOut {
     let mut g = GenOut::default();
-    g.rule = "histories write -> (append k_i entries)* : base archives from this crate's writer, from the independent builder (prefix, descriptors, ZIP64 records, made-by variants) and from earlier rounds; 0..R rounds (R = 4 quick, 12 thorough), every method, comment changes between rounds, append-nothing rounds; each round is one op line whose base is the previous round's output. non-trivial = the round finished and the base had at least one entry".into();
+    g.rule = "histories write -> (append k_i entries)* : base archives from this crate's writer, from the independent builder (prefix, descriptors, ZIP64 records, made-by variants) and from earlier rounds; every 12th history from a foreign base with unflagged CP437 names (K-A2); foreign bases with a name that decodes to 65534..65538 UTF-8 bytes (A6: accepted up to 65535, refused above, sink untouched); oracle-only `write.big`: bases of 65535 / 65536 (thorough: 65534..70000) entries with ZIP64 end records behind a prepended stub, three rounds each; 0..R rounds (R = 4 quick, 12 thorough), every method, comment changes between rounds, append-nothing rounds; each round is one op line whose base is the previous round's output. non-trivial = the round finished and the base had at least one entry".into();
     let (n, rounds) = if tier == "thorough" { (4000, 12) } else { (220, 4) };
     for i in 0..n {
         let mut r = super::rng_for(seed, "append", i);
-        let mut base = match r.below(3) { 0 => foreign_base(&mut r), _ => small_source(&mut r) };
+        // every 12th history starts from a foreign base with CP437 names (K-A2; own class, so that the known finding
+        // does not thin out the other histories)
+        let cp437 = i % 12 == 11;
+        let mut base = if cp437 { foreign_base_cp437(&mut r) } else { match r.below(3) { 0 => foreign_base(&mut r), _ => small_source(&mut r) } };
         let nr = r.range(1, rounds);
         for round in 0..nr {
             let srcs: Vec<Vec<u8>> = if r.chance(1, 4) { vec![small_source(&mut r)] } else { vec![] };
@@ -1252,10 +1341,22 @@ fn gen_append(seed: u64, tier: &str) -> GenOut {
             // make sure the round finishes explicitly so the next round has a base
             if calls.last().map(|c| c == "drop").unwrap_or(false) { let k = calls.len() - 1; calls[k] = "fin".into(); }
             let line = make_line(&calls, &srcs);
-            g.push(if round == 0 { "round0" } else { "later-round" }, line);
+            g.push(if cp437 { if round == 0 { "foreign-cp437.round0" } else { "foreign-cp437.later-round" } } else if round == 0 { "round0" } else { "later-round" }, line);
             let ro = run_calls(&calls, &srcs);
             match (ro.finished_ok, ro.fin) { (true, Some(b)) => base = b, _ => break }
         }
+    }
+    gen_append_long_names(&mut g, seed, tier);
+    // bases with more than 65535 entries (ZIP64 end records) behind a prepended stub, three rounds: new entries /
+    // nothing but a new comment / new entries again.  Oracle-only (the model is list based); deterministic, so not
+    // repeated for the further seeds of the quick tier
+    if tier != "quickx" {
+        let o = Opts { method: 0, level: None, dp: 0x5821, tp: 0, perm: None, large: false, pw: None };
+        let o8 = Opts { method: 8, ..o.clone() };
+        let rounds = format!("sf,{},{};w,{};fin|c,{};fin|dir,{},{};sf,{},{};w,{};fin", hex(b"new-1"), o.tok(), hex(b"first round"), hex(b"comment of round two"),
+            hex(b"d"), o.tok(), hex(b"d/new-2"), o8.tok(), hex(b"third round third round third round"));
+        let scen: &[(usize, usize)] = if tier == "thorough" { &[(65534, 0), (65535, 0), (65535, 70), (65536, 0), (65536, 70), (65537, 4096), (70000, 70)] } else { &[(65536, 70), (65535, 0)] };
+        for (n, p) in scen { g.push("big-base", format!("write.big n={n} prefix={p} rounds={rounds}")); }
     }
     g
 }
